@@ -137,6 +137,19 @@ fn child(args: &Args, lname: &str) {
             let _ = vcommon::catch(|| platform.hash_many(&inputs, &key, 0, blake3::IncrementCounter::Yes, 0, 1, 2, out.slice_mut()));
         }
     }
+    // the dispatcher asked for zero blocks must write nothing (the widest kernel always writes at least
+    // one block; the dispatcher is what makes a zero-block request safe)
+    {
+        idx += 1;
+        if idx > start {
+            announce(&format!("{{\"level\":\"{}\",\"op\":\"Platform::xof_many with zero blocks\",\"guard\":\"right\",\"len\":0,\"index\":{}}}", lname, idx));
+            let mut out = Guarded::new(0, true);
+            let block = [0x5au8; 64];
+            rep.inc("evaluations");
+            rep.inc("guarded_calls");
+            let _ = vcommon::catch(|| platform.xof_many(&key, &block, 64, 0, 0x08, out.slice_mut()));
+        }
+    }
     announce("done");
     rep.write(&args.report);
 }
@@ -188,7 +201,7 @@ pub fn run(args: &Args, rep: &mut Report) {
         let _ = std::fs::remove_file(format!("{}.apiguard.{}.cur", args.report, lname));
     }
     rep.configs.push(subject::config_json());
-    rep.rule = "the crate's one-shot functions, Hasher::update (two pieces) and OutputReader::fill at three positions (one across block counter 2^32) with the input and the exact-size output buffer flush against a PROT_NONE page, once on the right and once on the left, for every input length 0..=300 and k*1024+d (k <= 40 quick / 160 thorough), at every forced SIMD level, in one child process per level; results also compared with the spec; plus the safe Platform::hash_many given an output slice 1 byte .. all slots too short (it may panic, it must not write past the slice); non-trivial = distinct (level, side, length)".into();
+    rep.rule = "the crate's one-shot functions, Hasher::update (two pieces) and OutputReader::fill at three positions (one across block counter 2^32) with the input and the exact-size output buffer flush against a PROT_NONE page, once on the right and once on the left, for every input length 0..=300 and k*1024+d (k <= 40 quick / 160 thorough), at every forced SIMD level, in one child process per level; results also compared with the spec; plus the safe Platform::hash_many given an output slice 1 byte .. all slots too short (it may panic, it must not write past the slice); Platform::xof_many asked for zero blocks (must write nothing); non-trivial = distinct (level, side, length)".into();
     rep.sample(json!({"level": "avx512", "guard": "right", "len": 17 * 1024 + 1, "ops": ["hash(input)", "update(input[..n/3])", "update(input[n/3..])", "finalize_xof().fill(out) at 0, 63, 64*(2^32-9)"]}));
 }
 
